@@ -1276,7 +1276,7 @@ class Agent(dbus.service.Object):
         segments = []
         self.__logger.info('Transfer %d size %d relative to MTU %s',
                            item.transfer_id, len(data), mtu)
-        if mtu is None or len(data) < mtu:
+        if mtu is None or len(data) <= mtu:
             segments = [data]
         else:
             # The base extension map with the largest values present
